@@ -186,6 +186,8 @@ def register_leb_layouts():
     register_layout(mk('Elf_uleb128', False))
     register_layout(mk('Dwarf_uleb128', False))
     register_layout(mk('Dwarf_sleb128', True))
+    LAYOUTS['the_Dwarf_uleb128'] = LAYOUTS['Dwarf_uleb128']
+    LAYOUTS['the_Dwarf_sleb128'] = LAYOUTS['Dwarf_sleb128']
 
 
 register_leb_layouts()
